@@ -86,15 +86,15 @@ func (c RunConfig) KnobInt(k string, def int) int {
 
 // Run is one simulated execution.
 type Run struct {
-	Prop   string
-	Seed   uint64
-	Cfg    RunConfig
-	Rng    *rand.Rand
-	Eng    Engine
-	W      *World
-	Steps  []Step
-	StepNo int
-	Replay bool // executing recorded steps (no generation)
+	Prop    string
+	Seed    uint64
+	Cfg     RunConfig
+	Rng     *rand.Rand
+	Eng     Engine
+	W       *World
+	Steps   []Step
+	StepNo  int
+	Replay  bool // executing recorded steps (no generation)
 	Verbose bool
 
 	Probes     map[string]int
@@ -111,11 +111,11 @@ type Run struct {
 
 func NewRng(seed uint64) *rand.Rand { return rand.New(rand.NewPCG(seed, seed^0x9e3779b97f4a7c15)) }
 
-func (r *Run) Probe(name string)  { r.Probes[name]++ }
-func (r *Run) Fault(name string)  { r.FaultsHit[name]++ }
-func (r *Run) State(s string)     { r.States[s] = struct{}{} }
-func (r *Run) Pct(p int) bool     { return r.Rng.IntN(100) < p }
-func (r *Run) Pick(n int) int     { return r.Rng.IntN(n) }
+func (r *Run) Probe(name string) { r.Probes[name]++ }
+func (r *Run) Fault(name string) { r.FaultsHit[name]++ }
+func (r *Run) State(s string)    { r.States[s] = struct{}{} }
+func (r *Run) Pct(p int) bool    { return r.Rng.IntN(100) < p }
+func (r *Run) Pick(n int) int    { return r.Rng.IntN(n) }
 func (r *Run) Between(a, b int) int {
 	if b <= a {
 		return a
